@@ -260,15 +260,19 @@ func (w *World) deepReadCheck(hs *HandleState, cr *CallRec) {
 			return
 		}
 		tabs[i] = &TableContent{Name: rd.Name(), Refs: refs, Logs: logs}
-		info := reftable.SimInfo(rd)
-		if info.HasObjIndex {
-			w.probe("table-with-obj-index")
-		}
-		if info.RefIndexOff > 0 {
-			w.probe("table-with-ref-index")
-		}
-		if info.LogIndexOff > 0 {
-			w.probe("table-with-log-index")
+		if tc := w.loadTable(rd.Name()); tc.Info != nil {
+			if tc.Info.ObjOff > 0 {
+				w.probe("table-with-obj-index")
+			}
+			if tc.Info.ObjIndexOff > 0 {
+				w.probe("table-with-multiblock-obj-index")
+			}
+			if tc.Info.RefIndexOff > 0 {
+				w.probe("table-with-ref-index")
+			}
+			if tc.Info.LogIndexOff > 0 {
+				w.probe("table-with-log-index")
+			}
 		}
 	}
 	liveRefs, liveLogs := Overlay(tabs, false)
